@@ -706,11 +706,8 @@ func (g *Gen) callLike() ast.Vertex {
 		case 0:
 			n.Call = g.simpleVar()
 		case 1:
-			if g.O.PHP7 && !g.O.Common {
-				n.OpenCurlyBracketTkn, n.Call, n.CloseCurlyBracketTkn = g.ch('{'), g.Expr(), g.ch('}')
-				break
-			}
-			n.Call = g.memberName()
+			g.feat("static-call-curly")
+			n.OpenCurlyBracketTkn, n.Call, n.CloseCurlyBracketTkn = g.ch('{'), g.Expr(), g.ch('}')
 		default:
 			n.Call = g.memberName()
 		}
